@@ -165,7 +165,7 @@ STA_SPACE = dict(comps=COMPS, sta=[1, 0.5, 0.1], lta=["window", 2, 1],
                  hvsr=HVSR_KINDS, dt=[0.01, 0.02])
 MINS = [0.2, 0.0, 0.5, 0.8]
 MAXS = [2.5, 1.25, 8.0, 50.0]
-FACTORS = [1.0, 1e-3, 1e3]
+FACTORS = [1.0, 1e-3, 1e3, 1e-8]     # 1e-8: records in physical units (m/s), far below any absolute epsilon
 LIMITS = [(lo, hi) for lo in MINS for hi in MAXS]
 # one-step widenings: (narrow, wide)
 _SM, _SX = sorted(MINS), sorted(MAXS)
@@ -546,8 +546,8 @@ def run_root(root, ctx, tier):
             runner(ctx, root, ws, case)
     if len(ctx.samples) < 2 and cases:
         ctx.sample(dict(fn=fn, windows=root["lists"][0], configuration=cases[-1],
-                        inner_grid="16 limit pairs x 3 factors" if fn == "sta_lta"
-                        else "10 (normalized, threshold) x 3 factors",
+                        inner_grid="16 limit pairs x 4 factors" if fn == "sta_lta"
+                        else "10 (normalized, threshold) x 4 factors",
                         window_definitions={w: WINDOWS[w] for w in root["lists"][0]}))
 
 
@@ -584,7 +584,7 @@ def describe(tier):
              "4 s windows); for every list of the plan below every configuration within k deviations of "
              "the default (components in 11 orders/subsets, sta, lta, hvsr in {none, traditional, "
              "azimuthal x fresh/pre-set masks}, dt) and inside every configuration the complete grid of "
-             "16 (min,max) limits x 3 amplitude factors (STA/LTA) or 10 (normalised, threshold) x 3 "
+             "16 (min,max) limits x 4 amplitude factors (STA/LTA) or 10 (normalised, threshold) x 4 "
              "factors (maximum value); each element is one execution of the real function on fresh "
              "objects.  A case is counted non-trivial/distinct by (function, list, components, dt, sta, "
              "lta) when its inner grid produced at least two different selections",
